@@ -129,7 +129,7 @@ struct Table {
         tag = t;
         model.clear();
         phys.clear();
-        where.clear();
+        fresh_clear(where);
         n = 0;
         has_buckets = pending = false;
         cap = cur_n = tgt_n = B = keyed_since = 0;
@@ -659,7 +659,7 @@ bool apply(int op, uint8_t a, uint8_t b, uint8_t c, int ntab, size_t K, size_t m
         CHECK(cc.calls == n0 && cc.expect.empty(), "C04.clear.all", "%s clear made %zu callbacks for %zu live elements", t.tag, cc.calls, n0);
         t.model.clear();
         t.phys.clear();
-        t.where.clear();
+        fresh_clear(t.where);
         t.n = 0;
         t.has_buckets = t.pending = false;
         t.cap = t.cur_n = t.tgt_n = 0;
@@ -775,7 +775,7 @@ void vf_run(const uint8_t *data, size_t len)
             for (auto &kv : t.model) for (Elem *e : kv.second) all.push_back(e);
             for (Elem *e : all) { LIB(cstl_hash_erase(&t.h, e)); P.kill(e); }
             t.model.clear();
-            t.where.clear();
+            fresh_clear(t.where);
             t.n = 0;
             after_op(t);
             LIB(cstl_hash_clear(&t.h, nullptr));
@@ -789,7 +789,7 @@ void vf_run(const uint8_t *data, size_t len)
         g_clear = nullptr;
         CHECK(!cc.bad && cc.calls == n0, "C04.clear.all", "%s final clear made %zu callbacks for %zu live elements", t.tag, cc.calls, n0);
         t.model.clear();
-        t.where.clear();
+        fresh_clear(t.where);
         t.n = 0;
     }
     CHECK(lib_live_count() == 0, PF("C04.clear.released", "C16.hash.leak"), "clear left %zu library allocations (bucket arrays)", lib_live_count());
